@@ -977,7 +977,9 @@ def getattr_(E, obj, name):
             return VT(obj.bases)
         _raise('AttributeError', name)
     if isinstance(obj, VC) and isinstance(obj.v, (str, bytes)) or isinstance(obj, VS):
-        if name in STR_METHODS:
+        if name in STR_METHODS or hasattr(bytes if (isinstance(obj, VC) and isinstance(obj.v, bytes)) else str, name):
+            # every real str / bytes method exists; one the engine has no model for makes the path UNSUPPORTED when it is
+            # called (never a bogus AttributeError)
             return VBM(VBI('str.' + name), obj)
         _raise('AttributeError', name)
     if isinstance(obj, VC):
@@ -1004,7 +1006,7 @@ def getattr_(E, obj, name):
         _raise('AttributeError', name)
     if isinstance(obj, VO):
         t = known_type(E, obj)
-        if t == 'str' and name in STR_METHODS:
+        if t == 'str' and (name in STR_METHODS or hasattr(str, name)):
             return VBM(VBI('str.' + name), obj)
         if t == 'bytes' and name == 'decode':
             return VBM(VBI('bytes.decode'), obj)
